@@ -33,6 +33,15 @@ class TimersCtx(BaseCtx):
         self.cid = None
         self.plan = cfg["variant"]    # 'silence' | 'session'
         self.kc_wait = None
+        # optional earlier session (negotiating another hold time) that the peer drops: the contract of
+        # the session under observation is the one negotiated by the OPENs exchanged in THAT session
+        self.prelude = []
+        if cfg.get("peer_open0"):
+            self.prelude = [["fire", 0], ["conn_ok", 0], ["send", 0, cfg["peer_open0"], []],
+                            ["send", 0, rp.encode_keepalive().hex(), []], ["pclose", 0, bool(cfg.get("prelude_clean", True))]]
+        self.in_prelude = bool(self.prelude)
+        self.prelude_left = len(self.prelude)      # counted in step(), so that replay needs no choose()
+        self.prelude_sent = 0
 
     # ------------------------------------------------------------------ generation
     def gap(self, rng):
@@ -47,7 +56,12 @@ class TimersCtx(BaseCtx):
         w = self.world
         if self.done or w.exited or w.ops_done + w.ops_skipped >= self.cfg["max_ops"]:
             return None
+        if self.prelude_sent < len(self.prelude):
+            self.prelude_sent += 1
+            return self.prelude[self.prelude_sent - 1]
         if self.phase == "boot":
+            if not w.reactor.due():
+                return None
             return ["fire", 0]
         if self.phase == "connect":
             return ["conn_ok", 0]
@@ -85,7 +99,7 @@ class TimersCtx(BaseCtx):
             return ["fire", rng.randrange(len(due))]
         if nt is not None and abs(nt - horizon) <= EPS and na != float("inf"):
             # a timer and the arrival fall on the same instant: both orders are explored
-            self.stats["tie_timer_vs_arrival"] += 1
+            self.stats["gen:tie_timer_vs_arrival"] += 1
             if w.now() < nt - EPS:
                 return ["advance", nt - w.now()]
             if rng.chance(0.5):
@@ -117,6 +131,14 @@ class TimersCtx(BaseCtx):
         if op[0] == "fire" and len(w.reactor.due()) > 1:
             self.stats["same_instant_timers"] += 1
         ran = w.apply(op)
+        if self.in_prelude:
+            # the earlier session is not judged; swallow its outputs
+            self.observe(pos)
+            self.prelude_left -= 1
+            if self.prelude_left <= 0:
+                self.in_prelude = False
+                self.stats["two_session_runs"] += 1
+            return
         if not ran:
             return
         now = w.now()
@@ -203,6 +225,15 @@ class TimersCtx(BaseCtx):
             self.phase = "opensent"
             self.t_open_sent = now
             self.cid = t[1]
+            # the negotiated hold time is min of the two OPENs exchanged in this session (RFC 4271 4.2)
+            try:
+                fr = [f for f in rp.deframe(w.conns[t[1]].written)[0] if f.type == rp.OPEN]
+                offered = rp.decode_open(fr[0].body).hold
+            except (ValueError, IndexError):
+                offered = self.cfg["hold_time"]
+            if offered != self.cfg["hold_time"]:
+                self.stats["agent_offered_other_than_configured"] += 1
+            self.H = min(offered, self.cfg["peer_hold"])
             return
         if t[0] == "tx" and name == "KEEPALIVE":
             if self.phase == "opensent":
@@ -276,13 +307,22 @@ class TimersProfile(BaseProfile):
             "KEEPALIVE/UPDATE gaps from {H-e,H,H+e,H/3,0,H/2,3H,...} in OpenConfirm and Established (or total silence in "
             "OpenSent), all timers fired at their virtual instants with explicit tie order; non-trivial = reached "
             "Established or observed an expiry; distinct = distinct (phase, op, outputs, arrivals) sequence")
-    probes = ["tie_timer_vs_arrival", "same_instant_timers", "expiry_negotiated_hold", "expiry_large_hold",
+    probes = ["two_session_runs", "gen:tie_timer_vs_arrival", "same_instant_timers", "expiry_negotiated_hold", "expiry_large_hold",
               "periodic_keepalive", "arrival_restarts_hold", "closed_after_expiry"]
 
     def gen_config(self, rng, idx, tier):
         cfg = dict(base.DEFAULT_CFG)
         cfg["hold_time"] = HOLDS[idx % 8]
         cfg["peer_hold"] = HOLDS[(idx // 8) % 8]
+        if rng.chance(0.25):
+            # ... and values off the grid (the keepalive period H/3 is not an integer for most of them)
+            cfg["peer_hold"] = rng.pick([5, 8, 11, 14, 20, 100, rng.randrange(3, 400)])
+        if rng.chance(0.08):
+            cfg["hold_time"] = rng.pick([5, 8, 20, 100, rng.randrange(3, 400)])
+        if rng.chance(0.2):
+            cfg["peer_open0"] = base.gen_open(rng, cfg, "valid", hold=rng.pick([0, 3, 9, 30, 90])).hex()
+            cfg["prelude_clean"] = rng.chance(0.5)
+            cfg["idle_hold_time"] = rng.pick([1, 30])
         cfg["call_later"] = rng.pick([0, 15])
         cfg["variant"] = "silence" if rng.chance(0.1) else "session"
         cfg["n_arrivals"] = rng.pick([0, 1, 2, 4, 8, 16])
